@@ -49,11 +49,11 @@ def _isexpr(a):
     return isinstance(a, ast.expr)
 
 
-def _c(emb, path, joined=False):
+def _c(emb, path, joined=False, wraps=False):
     """candidate embedding: (text with {}, extractor, (line, col) of the fragment in it, join lines with backslashes first)"""
     i = emb.index('{}')
     pre = emb[:i]
-    return emb, path, (pre.count('\n') + 1, len(pre) - (pre.rfind('\n') + 1)), joined
+    return emb, path, (pre.count('\n') + 1, len(pre) - (pre.rfind('\n') + 1)), joined, wraps      # wraps: the construct's own parentheses become part of a bare sequence's extent
 
 
 def _join(src):
@@ -76,7 +76,8 @@ _SUBSCR = _c('_z[{}\n]', lambda t: t.body[0].value.slice)
 _LISTEL = _c('_z = [{}\n]', lambda t: _one(t.body[0].value.elts))
 _CALLARG = _c('_z({}\n)', lambda t: _one(t.body[0].value.args + t.body[0].value.keywords))
 _EX = [_PAREN, _SUBSCR, _LISTEL]
-_PAT = [_c('match _z:\n case {}: pass', lambda t: t.body[0].cases[0].pattern), _c('match _z:\n case [{}\n ]: pass', lambda t: _one(t.body[0].cases[0].pattern.patterns))]
+_PAT = [_c('match _z:\n case {}: pass', lambda t: t.body[0].cases[0].pattern), _c('match _z:\n case ({}\n ): pass', lambda t: t.body[0].cases[0].pattern, False, True),
+        _c('match _z:\n case [{}\n ]: pass', lambda t: _one(t.body[0].cases[0].pattern.patterns))]
 MODES = {
     'expr':               (_EX, _isexpr),
     'Tuple':              (_EX, _is('Tuple')),
@@ -87,6 +88,8 @@ MODES = {
     'Call':               (_EX, _is('Call')),
     'Attribute':          (_EX, _is('Attribute')),
     'Constant':           (_EX, _is('Constant')),
+    'expr_all':           ([_SUBSCR, _PAREN, _LISTEL, _CALLARG], _isexpr),
+    'all':                ([_SUBSCR, _PAREN, _LISTEL, _CALLARG, _c('{}', lambda t: _one(t.body)), _c('{}', lambda t: t)], lambda a: isinstance(a, ast.AST)),
     'expr_arglike':       (_EX + [_CALLARG], _isexpr),
     'expr_slice':         ([_SUBSCR, _PAREN], _isexpr),       # pfst's expression modes take any bare expression (yield, walrus): valid once parenthesised
     'stmt':               ([_c('{}', lambda t: _one(t.body))], lambda a: isinstance(a, ast.stmt)),
@@ -122,7 +125,7 @@ MODES = {
     'type_param':         ([_c('def _z[{}\n](): pass', lambda t: _one(t.body[0].type_params))], lambda a: isinstance(a, ast.type_param)),
     '_type_params':       ([_c('def _z[{}\n](): pass', lambda t: t.body[0].type_params)], _is('_type_params')),
 }
-MODE_NAMES = list(MODES)
+MODE_NAMES = [m_ for m_ in MODES if m_ != 'all']      # coercion targets ('all' is a parse mode only, used by C05-P2)
 
 # operand rows: (fragment, its own mode, host template / path for the non-root form or None)
 _HE = ('_y = {}', lambda r: r.body[0].value)
@@ -133,9 +136,10 @@ ROWS = [
     ('1 + 2j', 'expr', _HE), ('"s"', 'expr', _HE), ('None', 'expr', _HE), ('()', 'expr', _HE), ('[]', 'expr', _HE), ('(a,)', 'expr', _HE), ('[a, [b, (c, d)]]', 'expr', _HE),
     ('(a,  # c1\n b,\n)', 'expr', _HE), ('[ "é" , b ]', 'expr', _HE), ('a[b]', 'expr', _HE), ('(yield)', 'expr', _HE), ('a if b else c', 'expr', _HE),
     ('lambda: a', 'expr', _HE), ('(a := b)', 'expr', _HE), ('a, *b', 'expr', _HE), ('[a, *b]', 'expr', _HE),
-    ('*a', 'expr_arglike', None), ('a:b', 'expr_slice', None), ('a = b', 'stmt', None), ('a', 'stmt', None), ('a, b', 'stmt', None), ('a\nb', 'exec', None), ('a', 'exec', None),
+    ('*a', 'expr_arglike', None), ('a:b', 'expr_slice', None), ('*a', 'expr_all', None), ('*a,', 'expr_all', None), ('*a\n ,', 'expr_all', None), ('*ab  # c\n  ,', 'expr_all', None), ('a:b, *c', 'expr_all', None),
+    ('*not a', 'expr_all', None), ('a:b:c', 'expr_all', None), ('*a\n ,', 'all', None), ('a = 1', 'all', None), ('a, b', 'all', None), ('a = b', 'stmt', None), ('a', 'stmt', None), ('a, b', 'stmt', None), ('a\nb', 'exec', None), ('a', 'exec', None),
     ('a = b =', '_Assign_targets', None), ('a, b = c.d =', '_Assign_targets', None), ('@a\n@b.c', '_decorator_list', None), ('@a(b)', '_decorator_list', None),
-    ('a, *b, c=d', '_arglikes', None), ('a, b', '_arglikes', None), ('a, **b', '_arglikes', None), ('if a if b', '_comprehension_ifs', None), ('if a', '_comprehension_ifs', None),
+    ('a, *b, c=d', '_arglikes', None), ('a, b', '_arglikes', None), ('a, **b', '_arglikes', None), ('*a, b', '_arglikes', None), ('a, *b, c, d=e, **f', '_arglikes', None), ('a=b, *c', '_arglikes', None), ('if a if b', '_comprehension_ifs', None), ('if a', '_comprehension_ifs', None),
     ('for a in b', 'comprehension', None), ('for a in b if c', 'comprehension', None), ('for a in b for c in d', '_comprehensions', None),
     ('a, b=c', 'arguments', None), ('a, b', 'arguments', None), ('*b, c=1, d', 'arguments', None), ('a, *b, c, d=1', 'arguments', None), ('a, b=1, *c, d=2, **e', 'arguments', None), ('*, c=1', 'arguments', None), ('a, /, b, *c, d, **e', 'arguments', None), ('*a', 'arguments', None), ('a', 'arguments_lambda', None),
     ('a: int', 'arg', None), ('a', 'arg', None), ('a=b', 'keyword', None), ('**a', 'keyword', None), ('a as b', 'alias', None), ('a.b', 'alias', None), ('a', 'alias', None),
@@ -189,7 +193,7 @@ def _elements(a):
 
 def _cmp_candidate(got, src, cand):
     """-> None if CPython's parse of the candidate construct agrees with got (structure and relative positions), else (kind, detail)"""
-    emb, path, (l0, c0), joined = cand
+    emb, path, (l0, c0), joined, wraps = cand
     if joined:
         src = _join(src)
     if isinstance(got, list) and not got:      # empty special slice: nothing but blanks / comments may be there
@@ -211,6 +215,8 @@ def _cmp_candidate(got, src, cand):
         if d1 != d2:
             return 'structure_differs_from_python_parse_of_result_text', pc._first_diff(d2, d1)
         for x, y in zip(ast.walk(g), ast.walk(f_)):
+            if wraps and x is g and isinstance(g, (ast.MatchSequence, ast.Tuple)):
+                continue
             if hasattr(y, 'end_col_offset') and hasattr(x, 'end_col_offset'):
                 ey = (y.lineno - l0 + 1, y.col_offset - (c0 if y.lineno == l0 else 0), y.end_lineno - l0 + 1, y.end_col_offset - (c0 if y.end_lineno == l0 else 0))
                 ex = (x.lineno, x.col_offset, x.end_lineno, x.end_col_offset)
@@ -219,10 +225,36 @@ def _cmp_candidate(got, src, cand):
     return None
 
 
+def top_level_comma(src: str):
+    """is there a comma outside every bracket? (then an expression fragment is a tuple, whatever construct it is placed in)"""
+    depth = 0
+    try:
+        for t in tokenize.generate_tokens(io.StringIO(src.rstrip().rstrip(chr(92))).readline):
+            if t.type == tokenize.OP:
+                if t.string in '([{':
+                    depth += 1
+                elif t.string in ')]}':
+                    depth -= 1
+                elif t.string == ',' and depth == 0:
+                    return True
+    except tokenize.TokenError as e:
+        if 'EOF' not in str(e):
+            return None
+    except (IndentationError, SyntaxError):
+        return None
+    return False
+
+
+EXPR_MODES = {'expr', 'expr_all', 'expr_arglike', 'expr_slice', 'Tuple', 'List', 'Set', 'Dict', 'Name', 'Call', 'Attribute', 'Constant', 'all'}
+
+
 def mode_oracle(r: FST, mode: str, sig, where):
     """O-mode: CPython's parse of a construct containing r.src agrees with r.a"""
     cands, kind = MODES[mode]
     src = r.src
+    if mode in EXPR_MODES and isinstance(r.a, ast.expr):
+        tc = top_level_comma(src)
+        check(not tc or isinstance(r.a, ast.Tuple), sig + '.bare_comma_but_not_a_tuple', (where, src, type(r.a).__name__))
     check(kind(r.a), sig + '.result_is_not_of_the_requested_kind', (where, type(r.a).__name__))
     check(r.is_root and r.parent is None, sig + '.result_is_not_standalone', where)
     got, _kwd = _elements(r.a)
@@ -252,7 +284,7 @@ def _mk_row(ri):
             base = FST(frag, smode)
             pc.reset_globals()
             lv0 = leaves(frag)
-            same_kind = MODES[mode][1](base.a) and not isinstance(base.a, (ast.Slice, ast.Starred)) and mode in ('expr', 'Tuple', 'List', 'Set', 'Dict', 'Name', 'Call', 'Attribute', 'Constant', 'stmt', 'pattern', 'MatchSequence',
+            same_kind = MODES[mode][1](base.a) and not any(isinstance(n_, (ast.Slice, ast.Starred)) for n_ in ast.walk(base.a)) and mode in ('expr', 'Tuple', 'List', 'Set', 'Dict', 'Name', 'Call', 'Attribute', 'Constant', 'stmt', 'pattern', 'MatchSequence',
                                                             'MatchMapping', 'MatchClass', 'MatchOr', 'MatchAs', 'MatchValue', 'arg', 'keyword', 'alias', 'withitem', 'comprehension',
                                                             'arguments', 'type_param', '_Assign_targets', '_decorator_list', '_arglikes', '_comprehensions', '_comprehension_ifs',
                                                             '_aliases', '_withitems', '_pattern_attrlikes', '_type_params')
@@ -410,7 +442,7 @@ FNC = ['fst.fst.FST.as_', 'fst.code.code_as', 'fst.code._coerce_to_expr_ast', 'f
        'fst.code._coerce_to__decorator_list', 'fst.code._coerce_to__comprehension_ifs', 'fst.code._coerce_to__aliases_common', 'fst.code._coerce_to_pattern_ast', 'fst.code._coerce_to_arg',
        'fst.code._coerce_to_keyword', 'fst.code._coerce_to_alias', 'fst.fst_misc._fix_undelimited_seq', 'fst.fst_misc._delimit_node', 'fst.fst_core._put_src']
 CELLS = []
-_QROWS = {'*b, c=1, d', 'a, *b, c, d=1', 'a', '(a, b)', 'a, b', '[a, b]', 'f(a, b=c)', '(a,  # c1\n b,\n)', '[ "é" , b ]', 'a, *b, c=d', '@a\n@b.c', 'a = b =', 'a, b as c', 'a as b, c', '[a, *b]', 'C(a, k=b)', 'a, b=c', 'T, *U', 'if a if b',
+_QROWS = {'*a, b', 'a, *b, c, d=e, **f', '*b, c=1, d', 'a, *b, c, d=1', 'a', '(a, b)', 'a, b', '[a, b]', 'f(a, b=c)', '(a,  # c1\n b,\n)', '[ "é" , b ]', 'a, *b, c=d', '@a\n@b.c', 'a = b =', 'a, b as c', 'a as b, c', '[a, *b]', 'C(a, k=b)', 'a, b=c', 'T, *U', 'if a if b',
           '{"k": a, **b}', 'a | b', '-1'}
 for _i, (_f, _m, _h) in enumerate(ROWS):
     CELLS.append(Cell(f'P1.coerce[{_f!r}:{_m}]', _mk_row(_i), 'P', FNC,
